@@ -1439,14 +1439,17 @@ class Interp:
             # an object without __iter__ is iterated through __getitem__(0), (1), … until IndexError: follow __getitem__ at a
             # generic position; the positions are those of the array attribute the result is a row of
             c = self.p.classes.get(it.cls)
-            if c is not None and c.lookup("__iter__", self.p) is not None and not getattr(self, "_in_iter_dunder", False):
+            busy = self.__dict__.setdefault("_iter_dunder_busy", set())
+            if c is not None and c.lookup("__iter__", self.p) is not None and id(it) not in busy:
                 # __iter__ of a repository class (a generator method is executed eagerly): iterate over what it returns
-                self._in_iter_dunder = True
+                busy.add(id(it))
                 try:
                     got = self.call_function(c.lookup("__iter__", self.p), [it], {}, node)
                 finally:
-                    self._in_iter_dunder = False
-                if not isinstance(got, ObjV):
+                    busy.discard(id(it))
+                if isinstance(got, ObjV) and got.tag == "iter":
+                    got = _iter_rest(got)   # `return iter(self._items)`
+                if not (isinstance(got, ObjV) and got.cls):
                     return self.iteration(got, node)
             if c is not None and c.lookup("__iter__", self.p) is None:
                 g = c.lookup("__getitem__", self.p)
@@ -1464,8 +1467,34 @@ class Interp:
         u = self.unknown("iteration-over-" + type(it).__name__, node, (generic_elem(it),))
         return rng(sym.Opq("len", ())), iv, lambda: u
 
+    def _live_source(self, it: Val, node) -> Val:
+        """an object of the package whose __iter__ hands out `iter(<its list>)` is iterated over that very list (so that popping
+        from the list inside the loop shifts what the next position holds); `iter(list(xs))` walks a private copy"""
+        if isinstance(it, ObjV) and it.cls:
+            c = self.p.classes.get(it.cls)
+            m = c.lookup("__iter__", self.p) if c is not None else None
+            busy = self.__dict__.setdefault("_iter_dunder_busy", set())
+            if m is not None and id(it) not in busy and not any(
+                    isinstance(y, (ast.Yield, ast.YieldFrom)) for y in ast.walk(m.node)):
+                busy.add(id(it))
+                try:
+                    got = self.call_function(m, [it], {}, node)
+                finally:
+                    busy.discard(id(it))
+                if isinstance(got, ObjV) and got.tag == "iter" and got.attrs.get("pos") == 0 and isinstance(got.attrs.get("src"), Seq):
+                    return got.attrs["src"]
+                if isinstance(got, Seq):
+                    return got
+        return it
+
     def exec_for(self, st: ast.For, env: dict) -> Optional[dict]:
         it = self.eval(st.iter, env)
+        if self.cfg.flags.get("live_lists"):
+            it = self._live_source(it, st.iter)
+            if isinstance(it, ObjV) and it.tag == "enumerate":
+                inner = self._live_source(it.attrs["inner"], st.iter)
+                if inner is not it.attrs["inner"]:
+                    it = ObjV(None, dict(inner=inner), tag="enumerate")
         if isinstance(it, CondSeq) and not st.orelse:
             # every item in turn, its body under the condition that the item is in the list at all
             cache = self.__dict__.setdefault("_condfor", {})
@@ -2663,6 +2692,42 @@ class Interp:
             a = a.val
         if isinstance(b, Opt):
             b = b.val
+        # rich comparison methods of the package's own classes: a == b is a.__eq__(b), a != b its negation unless __ne__ exists,
+        # x in obj is obj.__contains__(x), x in [objects] is `is` or == against every item
+        if isinstance(op, (ast.Eq, ast.NotEq)) and isinstance(a, ObjV) and a.cls and not isinstance(b, NoneV):
+            c_ = self.p.classes.get(a.cls)
+            m_ = c_.lookup("__ne__" if isinstance(op, ast.NotEq) else "__eq__", self.p) if c_ else None
+            neg = False
+            if m_ is None and isinstance(op, ast.NotEq) and c_ is not None:
+                m_, neg = c_.lookup("__eq__", self.p), True
+            if m_ is not None:
+                if a is b and not neg and isinstance(op, ast.Eq) and False:
+                    return Sc(sym.TRUE)
+                r_ = self.call_function(m_, [a, b], {}, node)
+                t_ = self.truth(r_)
+                return Sc(sym.Not(t_) if neg else t_)
+        if isinstance(op, (ast.In, ast.NotIn)) and isinstance(b, ObjV) and b.cls:
+            c_ = self.p.classes.get(b.cls)
+            m_ = c_.lookup("__contains__", self.p) if c_ else None
+            if m_ is not None:
+                t_ = self.truth(self.call_function(m_, [b, a], {}, node))
+                return Sc(t_ if isinstance(op, ast.In) else sym.Not(t_))
+        if isinstance(op, (ast.In, ast.NotIn)) and isinstance(a, ObjV) and a.cls and isinstance(b, Seq) \
+                and all(isinstance(x, ObjV) for x in b.items):
+            c_ = self.p.classes.get(a.cls)
+            m_ = c_.lookup("__eq__", self.p) if c_ else None
+            if m_ is not None or not b.items:
+                parts = []
+                for x in b.items:
+                    if x is a:
+                        parts = [sym.TRUE]
+                        break
+                    parts.append(self.truth(self.call_function(m_, [x, a], {}, node)))
+                t_ = sym.Or(*parts) if parts else sym.FALSE
+                d_ = self.decide(t_)
+                if d_ is not None:
+                    t_ = sym.Bool(d_)
+                return Sc(t_ if isinstance(op, ast.In) else sym.Not(t_))
         if isinstance(op, (ast.Is, ast.IsNot)):
             same = (isinstance(a, NoneV) and isinstance(b, NoneV))
             known = isinstance(a, (NoneV, Sc, Arr, Seq, StrV, DictV, FuncV, ObjV, Blocks, Bag)) and \
